@@ -380,36 +380,16 @@ def os_path_exists(rel):
     return os.path.exists(os.path.join(core.COQ, rel))
 
 
+RULE = ("seeded generation of resource requests / hosts / ports / argv (see props/C16.py) plus a fixed grid; "
+        "each case runs the real executorlib function and the regenerated Gallina definition (vm_compute) and "
+        "compares canonical renderings; distinct = distinct (function, input) whose Python outcome is not an exception")
+ASSUME = ["srun/mpiexec option grammar = Model/Grammar.v (hand-written from the man pages; trusted)",
+          "translator/py2v.py + Base/PyLib.v give the Python subset its meaning (differentially tested each run)",
+          "float rounding of int(a/b) ignored; strings restricted to printable ASCII in generated cases"]
+
+
 def decide(res, pr, mismatches, oracle_fail, cases, evaluated):
-    res.cov["evaluations"] = len(cases)
-    res.cov["distinct_nontrivial"] = len({json.dumps([c[0], c[1]], sort_keys=True, default=str) for c in cases
-                                          if not c[3].startswith("Err")})
-    res.cov["rule"] = ("seeded generation of resource requests / hosts / ports / argv (see props/C16.py) plus a fixed grid; "
-                       "each case runs the real executorlib function and the regenerated Gallina definition (vm_compute) and "
-                       "compares canonical renderings; distinct = distinct (function, input) whose Python outcome is not an exception")
-    res.cov["translator_diff_cases"] = evaluated
-    res.cov["translator_diff_mismatches"] = len(mismatches)
-    res.cov["oracle_failures"] = len(oracle_fail)
-    hist = {}
-    for c in cases:
-        hist[c[0]] = hist.get(c[0], 0) + 1
-    res.cov["input_distribution"] = hist
-    res.cov["samples"] = [{"function": c[0], "input": c[1], "outcome": c[3]} for c in cases[:3] + cases[-3:]]
-    res.assumptions = [
-        "srun/mpiexec option grammar = Model/Grammar.v (hand-written from the man pages; trusted)",
-        "translator/py2v.py + Base/PyLib.v give the Python subset its meaning (differentially tested each run)",
-        "float rounding of int(a/b) ignored; strings restricted to printable ASCII in generated cases",
-    ]
-    tie_broken = (not pr["ok"]) or bool(mismatches)
-    if not tie_broken and not oracle_fail:
-        return
-    if oracle_fail:
-        f = oracle_fail[0]
-        res.violation("implementation output violates the launcher grammar / request", {
-            "kind": "oracle", "case": f, "count": len(oracle_fail), "broken_tie": pr["broken"], "diff": mismatches[:3]})
-        return
-    res.violation("proof or model/code correspondence no longer checks and no failing input was found", {
-        "kind": "tie", "broken": pr["broken"], "diff": mismatches[:5]}, found_input=False)
+    core.decide(res, pr, mismatches, oracle_fail, cases, evaluated, RULE, ASSUME)
 
 
 def replay(path):
